@@ -60,7 +60,13 @@ func N(quick, thorough int) int {
 		return 1
 	}
 	if Thorough() {
-		n := thorough / Shards()
+		// the registry may deepen a cheap check's thorough tier (VERIF_TSCALE = multiplier of the
+		// total thorough case count written in the test)
+		scale := 1
+		if v, err := strconv.Atoi(os.Getenv("VERIF_TSCALE")); err == nil && v > 1 {
+			scale = v
+		}
+		n := thorough * scale / Shards()
 		if n < 1 {
 			n = 1
 		}
